@@ -381,9 +381,10 @@ func (c *CoreRun) exec(l map[string]any) string {
 		res := riga.OpenResult{Uuid: c.fo[vb-1]}
 		q := 0
 		if st := c.r.Stream(); st != nil {
-			off, _, _ := st.GetOffsets()
-			if o, ok := off.Load(uint16(vb - 1)); ok {
-				q = int(o.SeqNo)
+			if off, _, _ := st.GetOffsets(); off != nil {
+				if o, ok := off.Load(uint16(vb - 1)); ok {
+					q = int(o.SeqNo)
+				}
 			}
 		}
 		from := q
@@ -584,6 +585,21 @@ func (c *CoreRun) exec(l map[string]any) string {
 		c.kill()
 	case "SaveAcquire":
 		// (only reached in a diverged run: nothing to do, the thread proceeds by itself)
+	case "Scrape":
+		r := c.r
+		r.S.Go("scr", func() { r.S.Emit(r.Scrape()) })
+		c.r.S.WaitUntil(stepTimeout, func(p map[string]string, d map[string]bool) bool { return d["scr"] || p["scr"] != "" })
+	case "ScrapeRet":
+		c.setHigh()
+		if low, _ := l["low"].(bool); low {
+			for vb := range c.slog {
+				c.w.SetHigh(vb, 0)
+			}
+		}
+		if !c.r.S.Release("scr", nil) {
+			return "no scrape in progress"
+		}
+		c.r.S.WaitUntil(stepTimeout, func(p map[string]string, d map[string]bool) bool { return d["scr"] })
 	case "StartWind":
 	case "Quiesce":
 		if c.diverged {
@@ -618,9 +634,10 @@ func (c *CoreRun) releaseAll() bool {
 			if vb >= 1 && vb <= len(c.fo) {
 				q := 0
 				if st := c.r.Stream(); st != nil {
-					off, _, _ := st.GetOffsets()
-					if o, ok := off.Load(uint16(vb - 1)); ok {
-						q = int(o.SeqNo)
+					if off, _, _ := st.GetOffsets(); off != nil {
+						if o, ok := off.Load(uint16(vb - 1)); ok {
+							q = int(o.SeqNo)
+						}
 					}
 				}
 				c.wire[vb-1] = wireFrom(c.slog[vb-1], q)
@@ -723,6 +740,16 @@ func (c *CoreRun) Run() []TraceLine {
 		reason := c.exec(st.L)
 		if reason != "" {
 			tl.Skipped = reason
+			if c.up && c.r != nil && reason != "process is down" {
+				// the real code is not where the schedule expects it: it no longer follows the specification. Let whatever
+				// it has pending proceed with friendly answers, so that what it does next is observed and judged
+				c.diverged = true
+				c.releaseAll()
+				if msg, died := c.r.S.Died("main"); died {
+					c.r.S.Emit(Ev{"ev": "Died", "msg": msg})
+					c.kill()
+				}
+			}
 		} else if c.up {
 			c.await(st)
 			// the main thread died (panic inside dcp.Start / close): the process is gone
